@@ -11,14 +11,31 @@ Ops (handled by lean/Driver/BlakeD.lean):
                                          update(buf,bitlen=L)); the last token is the final piece
                                          -> digest ; bitcnt after every non-final token (after `init` too)
   blake2seq.h <b|s> <tok> … <tok>        the same for Blake2 (no bit lengths: its update has none)
+  blakeseqs <cls0>,<cls1>,… | <k> <step> | env <name> | …
+                                         SEVERAL objects alive in one line, each with a whole life (cls = 224|256|384|512 = Blake(n),
+                                         b|s = Blake2, @224 … @s = the module singletons): steps new | init [k=v …] | upd <hex> [L] |
+                                         fin <hex> [L] | call <hex> [k=v …]; a keyword that is not written is not passed (`init` =
+                                         h.initstate()); `env <name>` = library activity on no object of the line (hashcommon.env_step)
+                                         -> per step `-` | c<bitcnt> | digest | ERR.  The Lean objects are values in a list
+                                         (Model.Multi): there siblings cannot interfere and `init` cannot remember BY CONSTRUCTION;
+                                         the lines test whether the Python objects are as independent.
 The driver's spec column is the one-shot Spec.Blake / Spec.Blake2 digest of p1‖…‖pk, the bit counts 8·Σ|p_i|, and the
 one-shot counter / flag rule.  check_impl compares with the one-shot call of the real code itself."""
 import itertools
 from props.common import *
+from props import hashcommon as HC
 
 PREFIX = ('blakeseq', 'blake2seq')
 LEAN_PROOFS = ['Proofs.C14_Blake']
 GEN_ITEMS = ['BlakeG']
+RULE = ('`blakeseqs <classes> | <k> step | env <name>`: whole lives of ONE object before the piecewise run — complete one-shot calls with each '
+        'optional parameter (BLAKE: s, bitlen; BLAKE2: outlen, salt, pers, tree parameters), refused calls, finished / abandoned / refused '
+        'salted streams, several in a row — then initstate() with NO keyword (the defaults of the method) or with a keyword, and the '
+        'stream compared with the one-shot call of a fresh object with just those keywords; SEVERAL objects alive in one line (same class, '
+        'the other digest size of the same word size, BLAKE2 of the same block size, the module singletons blake224 … blake2s) initialised '
+        'with another salt, fed, called, finished or refused between two pieces; two and three streams interleaved piece by piece; library '
+        'activity (SHA-2 / HMAC / other Blake objects and singletons) between two pieces.  The Lean objects are values in a list (Model.Multi): '
+        'no interference and no memory across initstate by construction there; the lines test the Python objects')
 TRUSTED = ['the counter / flag trace of the real code is observed by wrapping the name `Bits` in crysp.blake']
 ASSUMPTIONS = ['BLAKE2 streaming with an EMPTY final piece after data cannot equal the one-shot digest without buffering (known finding C14-blake2-empty-final)']
 
@@ -85,9 +102,105 @@ def hist_expect(toks, blockbits):
     return msg + p[:(L + 7) // 8], bits + L, cnts
 
 
+def mkobj(cls):
+    import crysp.blake as BL
+    if cls[0] == '@': return getattr(BL, 'blake2' + cls[1:] if cls[1:] in B2 else 'blake' + cls[1:])
+    return BL.Blake2(B2[cls][0]) if cls in B2 else BL.Blake(int(cls))
+
+
+def kw_of(toks):
+    """k=v tokens -> keyword arguments handed to the real code (hex tokens = bytes, else int)"""
+    return {k: (unhx(v) if v[:1] == 'x' else int(v)) for k, v in (t.split('=') for t in toks)}
+
+
+def parse_multi(line):
+    steps = HC.split_bar(line.split()[1:])
+    return steps[0][0].split(','), [(None, st) if st[0] == 'env' else (int(st[0]), st[1:]) for st in steps[1:]]
+
+
+def run_multi(a):
+    steps = HC.split_bar(a)
+    clss = steps[0][0].split(',')
+    objs, out = {}, []
+    for st in steps[1:]:
+        if st[0] == 'env':
+            HC.env_step(st[1]); out.append('-'); continue
+        k, st = int(st[0]), st[1:]
+        if st[0] == 'new':
+            objs[k] = mkobj(clss[k]); out.append('-'); continue
+        h = objs[k]
+        def cnt(f):
+            f(); return 'c%d' % h.padmethod.bitcnt
+        bl = lambda: ({'bitlen': int(st[2])} if len(st) > 2 else {})
+        if st[0] == 'init': r = guarded(lambda: cnt(lambda: h.initstate(**kw_of(st[1:]))))
+        elif st[0] == 'upd': r = guarded(lambda: cnt(lambda: h.update(unhx(st[1]), **bl())))
+        elif st[0] == 'fin': r = guarded(lambda: hx(h.update(unhx(st[1]), padding=True, **bl())))
+        elif st[0] == 'call': r = guarded(lambda: hx(h(unhx(st[1]), **kw_of(st[2:]))))
+        else: raise RuntimeError('bad step %r' % st)
+        out.append(r)
+    return ';'.join(out)
+
+
+def check_multi(line, res):
+    """every object's stream alone: the pieces fed since ITS last init, finished, give the one-shot call of a FRESH object of
+    its class with the keywords of that init (none given = the defaults), the bit counter after init is 0 and after every
+    piece the number of bits fed since; a complete call on a used object gives what it gives on a fresh one — whatever the
+    object did before that init and whatever other objects / the library did between its steps"""
+    import crysp.blake as BL
+    clss, steps = parse_multi(line)
+    outs = res.split(';')
+    if len(outs) != len(steps): return 'blakeseqs: %d results for %d steps' % (len(outs), len(steps))
+    fresh = lambda c: BL.Blake2(B2[c][0]) if c in B2 else BL.Blake(int(c))
+    streams, lives = {}, {}
+    for (k, st), o in zip(steps, outs):
+        if k is None: continue
+        cls = clss[k].lstrip('@'); two = cls in B2
+        bb = B2[cls][1] if two else blk(int(cls))
+        lives.setdefault(k, []).append(st[0] + (' ' + ' '.join(st[1:]) if st[0] == 'init' else ' ' + ' '.join(st[2:]) if st[0] == 'call' and len(st) > 2 else ''))
+        bad = lambda why: 'blakeseqs object %d (%s) of %s, its steps: %s; interleaved as %s: %s' % (
+            k, clss[k], ','.join(clss), ' | '.join(lives[k]), ' '.join('e' if j is None else str(j) for j, _ in steps), why)
+        if st[0] == 'new': streams[k] = None
+        elif st[0] == 'init':
+            kw = kw_of(st[1:])
+            if two and not 1 <= kw.get('outlen', B2[cls][0] // 8) <= B2[cls][0] // 8:
+                streams[k] = None
+                if o != 'ERR': return bad('a digest length out of range must be refused')
+                continue
+            streams[k] = (b'', 0, kw)
+            if o != 'c0': return bad('%s right after initstate(%s)' % (o, ' '.join(st[1:])))
+        elif st[0] == 'call':
+            streams[k] = None
+            one = guarded(lambda: hx(fresh(cls)(unhx(st[1]), **kw_of(st[2:]))))
+            if o != one: return bad('the call gives %s, on a fresh object %s' % (o[:24], one[:24]))
+        elif streams.get(k) is None:
+            continue                                            # a step on a stream that is not open: not this predicate
+        else:
+            msg, bits, kw = streams[k]
+            p = unhx(st[1]); L = int(st[2]) if len(st) > 2 else 8 * len(p)
+            refused = L > 8 * len(p) or (two and len(st) > 2) or (st[0] == 'upd' and L % (8 * bb))
+            if refused:
+                streams[k] = None
+                if o != 'ERR': return bad('a piece that must be refused was accepted')
+            elif st[0] == 'upd':
+                streams[k] = (msg + p[:L // 8], bits + L, kw)
+                if o != 'c%d' % (bits + L): return bad('%s after %d bits' % (o, bits + L))
+            else:
+                streams[k] = None
+                if two and not p and msg: continue              # BLAKE2, empty final piece after data: known finding
+                M, total = msg + p[:(L + 7) // 8], bits + L
+                ckw = dict(kw)
+                if not two:
+                    ckw = {'s': kw['salt']} if 'salt' in kw else {}
+                    if total % 8: ckw['bitlen'] = total
+                one = guarded(lambda: hx(fresh(cls)(M, **ckw)))
+                if o != one: return bad('the stream gives %s, the one-shot call %s(M%s) on a fresh object %s' % (o[:24], cls, ''.join(', %s=%s' % kv for kv in ckw.items()), one[:24]))
+    return None
+
+
 def run_impl(line):
     import crysp.blake as BL
     t = line.split(); op, a = t[0], t[1:]
+    if op == 'blakeseqs': return run_multi(a)
     def go():
         if op == 'blakeseq.h':
             h = BL.Blake(int(a[0])); salt = int(a[1]); h.initstate(salt)
@@ -142,6 +255,7 @@ def check_hist(op, a, res):
 def check_impl(line, res):
     import crysp.blake as BL
     t = line.split(); op, a = t[0], t[1:]
+    if op == 'blakeseqs': return check_multi(line, res)
     if op in ('blakeseq.h', 'blake2seq.h'): return check_hist(op, a, res)
     bad = lambda why: '%s: %s' % (op, why)
     first = 2 if op == 'blakeseq' else 1
@@ -236,6 +350,112 @@ def hist_lines(kind, v, bb, rng, quick):
     yield head + T(rb(rng, bb)) + ' init', tag + ':refused'
 
 
+# ---- whole lives and several objects (blakeseqs) ----------------------------------------------------------------------------------
+def bbytes(cls): c = cls.lstrip('@'); return B2[c][1] if c in B2 else blk(int(c))
+def is2(cls): return cls.lstrip('@') in B2
+
+
+def bstream(cls, rng, nb, tail, init='init', shape=None):
+    """a complete stream as step strings: init, nb one-block pieces (shape: one empty piece / a double piece), the final piece
+    (BLAKE2: never an empty final piece after data — known finding)"""
+    bb = bbytes(cls)
+    if is2(cls) and nb and not tail: tail = 1
+    M = rb(rng, nb * bb + tail)
+    cuts = list(range(1, nb + 1))
+    if shape == 'empty' and cuts: cuts.append(rng.choice(cuts)); cuts.sort()
+    if shape == 'double' and len(cuts) > 1: del cuts[rng.randrange(len(cuts) - 1)]
+    ps, p = [], 0
+    for c in cuts:
+        ps.append(M[p:c * bb]); p = c * bb
+    return [init] + ['upd ' + hx(x) for x in ps] + ['fin ' + hx(M[p:])]
+
+
+def weave(rng, lists):
+    pos = [0] * len(lists); out = []
+    while True:
+        live = [k for k, l in enumerate(lists) if pos[k] < len(l)]
+        if not live: return out
+        k = rng.choice(live); out.append((k, lists[k][pos[k]])); pos[k] += 1
+
+
+def mline(clss, steps):
+    return 'blakeseqs %s | %s' % (','.join(clss), ' | '.join(st if k is None else '%d %s' % (k, st) for k, st in steps))
+
+
+def lives_of(cls, rng):
+    """earlier lives of an object, each using an optional parameter the class offers: complete one-shot calls (salted / with a
+    bit length / refused), finished, abandoned and refused streams -> [(tag, steps)]"""
+    bb = bbytes(cls); m, t, B = rb(rng, bb + 9), rb(rng, 3), rb(rng, bb)
+    if not is2(cls):
+        X, Y = rng.getrandbits(4 * (64 if bb == 128 else 32)) | 1, rng.getrandbits(40) | 1
+        return [('salted call', ['call %s s=%d' % (hx(m), X)]),
+                ('salted stream, finished', ['init salt=%d' % X, 'upd ' + hx(B), 'fin ' + hx(t)]),
+                ('salted stream, abandoned', ['init salt=%d' % Y, 'upd ' + hx(B)]),
+                ('call with a bit length', ['call %s bitlen=%d' % (hx(m), 8 * bb + 13)]),
+                ('refused salted call', ['call %s s=%d bitlen=%d' % (hx(m), X, 8 * len(m) + 8)]),
+                ('salted call, salted stream, refused piece', ['call %s s=%d' % (hx(t), Y), 'init salt=%d' % X, 'upd ' + hx(B), 'upd x0102']),
+                ('step refused after the final one', ['init salt=%d' % X, 'fin ' + hx(t), 'upd ' + hx(B)])]
+    l = bb // 8
+    return [('call with outlen', ['call %s outlen=5' % hx(m)]),
+            ('call with salt and pers', ['call %s salt=%s pers=%s' % (hx(m), hx(rb(rng, l)), hx(rb(rng, l)))]),
+            ('refused call (outlen 0)', ['call %s outlen=0' % hx(m)]),
+            ('call with tree parameters', ['call %s fanout=2 depth=3 leafl=%d noffset=%d ndepth=1 inner=%d outlen=%d' % (hx(m), rng.getrandbits(32), rng.getrandbits(40), l, l)]),
+            ('stream with outlen, finished', ['init outlen=9', 'upd ' + hx(B), 'fin ' + hx(t)]),
+            ('salted stream, abandoned', ['init salt=%s outlen=3' % hx(rb(rng, l)), 'upd ' + hx(B)]),
+            ('step refused after the final one', ['init pers=%s' % hx(rb(rng, l)), 'fin ' + hx(t), 'upd ' + hx(B)])]
+
+
+def life_lines(cls, rng, quick):
+    """ONE object: an earlier life, then initstate() — no keyword, so the defaults of the method — or initstate(k=v) and a
+    complete piecewise run, compared with the one-shot call of a fresh object with just those keywords"""
+    bb = bbytes(cls)
+    small = quick and cls in ('224', '384')
+    for li, (tag, life) in enumerate(lives_of(cls, rng)):
+        inits = ['init'] + ([] if small or (quick and li > 2) else ['init outlen=7' if is2(cls) else 'init salt=%d' % (rng.getrandbits(30) | 1)])
+        for init in inits:
+            for nb, shape in (((1, None),) if small or (quick and li > 1) else ((0, None), (2, None)) if quick else ((0, None), (1, None), (2, None), (2, 'empty'), (3, 'double'))):
+                yield mline([cls], [(0, 'new')] + [(0, x) for x in life + bstream(cls, rng, nb, rng.choice([0, 3, bb - 9]), init, shape)]), 'blakeseqs:life (%s), init, stream' % tag
+    # several lives in a row
+    ls = lives_of(cls, rng); rng.shuffle(ls)
+    yield mline([cls], [(0, 'new')] + [(0, x) for _, life in ls[:4] for x in life] + [(0, x) for x in bstream(cls, rng, 1, 5)]), 'blakeseqs:several lives, init, stream'
+
+
+PAIRS = [('256', '256'), ('256', '224'), ('512', '384'), ('512', '512'), ('224', '224'), ('384', '512'), ('b', 'b'), ('s', 's'), ('b', 's'),
+         ('@b', '@s'), ('@256', '@224'), ('@512', '@384'), ('@b', 'b'), ('@256', '256'), ('256', 's'), ('512', 'b')]
+
+
+def salted(cls, rng):
+    return 'init' if rng.randrange(3) == 0 else 'init salt=%s' % hx(rb(rng, bbytes(cls) // 8)) if is2(cls) else 'init salt=%d' % (rng.getrandbits(64) | 1)
+
+
+def sibling_lines(rng, quick):
+    """a SECOND object (same class / the other digest size of the same word size / a singleton / the BLAKE2 of the same block
+    size) is constructed, initialised (with another salt), fed, called, finished or refused BETWEEN two pieces of a stream;
+    two and three complete streams interleaved piece by piece; library activity on no object of the line"""
+    for A, Bn in PAIRS:
+        cl = [A, Bn]
+        a = bstream(A, rng, 2, 3, salted(A, rng)); b = bstream(Bn, rng, 2, 5, salted(Bn, rng))
+        mB = hx(rb(rng, bbytes(Bn) + 7))
+        kwB = ('outlen=11' if is2(Bn) else 's=%d' % (rng.getrandbits(50) | 1))
+        N = [(0, 'new'), (1, 'new')]
+        yield mline(cl, N + [(0, a[0]), (0, a[1]), (1, b[0]), (0, a[2]), (0, a[3])]), 'blakeseqs:sibling initialised between two pieces'
+        yield mline(cl, N + [(0, a[0]), (1, b[0]), (0, a[1]), (1, b[1]), (0, a[2]), (1, b[2]), (0, a[3]), (1, b[3])]), 'blakeseqs:two streams piece by piece'
+        yield mline(cl, N + [(0, a[0]), (0, a[1]), (1, 'call %s %s' % (mB, kwB)), (0, a[2]), (1, 'call ' + mB), (0, a[3])]), 'blakeseqs:sibling called between two pieces'
+        yield mline(cl, N + [(1, b[0]), (0, a[0]), (0, a[1]), (1, 'fin ' + mB), (0, a[2]), (1, 'upd ' + mB), (0, a[3])]), 'blakeseqs:sibling finished / refused between two pieces'
+        for _ in range(2 if quick else 12):
+            la = bstream(A, rng, rng.randrange(1, 4), rng.randrange(0, 9), salted(A, rng), rng.choice([None, 'empty', 'double']))
+            lb = rng.choice([[], bstream(Bn, rng, 1, 2, salted(Bn, rng))[:2]]) + bstream(Bn, rng, rng.randrange(1, 4), rng.randrange(0, 9), salted(Bn, rng))
+            yield mline(cl, N + weave(rng, [la, lb])), 'blakeseqs:two streams, random interleaving'
+    for cl in [('256', '224', 's'), ('512', '384', 'b'), ('@256', '256', '@s')] + ([] if quick else [tuple(rng.choice(['224', '256', '384', '512', 'b', 's']) for _ in range(3)) for _ in range(20)]):
+        yield mline(cl, [(k, 'new') for k in range(3)] + weave(rng, [bstream(c, rng, rng.randrange(1, 3), rng.randrange(0, 9), salted(c, rng)) for c in cl])), 'blakeseqs:three streams, random interleaving'
+    for cls in ('224', '256', '384', '512', 'b', 's'):
+        a = bstream(cls, rng, 2, 3, salted(cls, rng))
+        n = 512 if bbytes(cls) == 128 else 256
+        envs = ['blake:%d' % n, 'blake.s:%d' % n, 'blake2:%d' % n, 'hash:sha%d' % n, 'feed:sha%d' % (384 if n == 512 else 224), 'hmac:sha%d' % n]
+        for e in envs if not quick else rng.sample(envs, 3):
+            yield mline([cls], [(0, 'new'), (0, a[0]), (0, a[1]), (None, 'env ' + e), (0, a[2]), (0, a[3])]), 'blakeseqs:library activity between two pieces'
+
+
 def cases(tier, rng):
     variants = [('blake', str(n), blk(n)) for n in (224, 256, 384, 512)] + [('blake2', v, B2[v][1]) for v in 'bs']
     if tier == 'search':
@@ -243,6 +463,13 @@ def cases(tier, rng):
             kind, v, bb = rng.choice(variants)
             if rng.randrange(3) == 0:
                 yield rng.choice(list(hist_lines(kind, v, bb, rng, True)))
+                continue
+            if rng.randrange(3) == 0:
+                A = v; Bn = rng.choice([x for x in ('224', '256', '384', '512', 'b', 's') if bbytes(x) == bb])
+                life = rng.choice(lives_of(A, rng))[1] if rng.randrange(2) else []
+                la = ['new'] + life + bstream(A, rng, rng.randrange(0, 4), rng.randrange(0, bb), rng.choice(['init', salted(A, rng)]))
+                lb = ['new'] + bstream(Bn, rng, rng.randrange(0, 3), rng.randrange(0, 9), salted(Bn, rng))
+                yield mline([A, Bn], weave(rng, [la, lb])), 'search'
                 continue
             nb = rng.randrange(0, 6)
             tail = rng.choice([0, 1, bb - 9, bb - 1, bb, bb + 1, rng.randrange(0, 2 * bb)])
@@ -266,13 +493,21 @@ def cases(tier, rng):
             cuts = sorted(rng.randrange(0, nb + 1) for _ in range(rng.randrange(1, 5)))
             yield from lines_for(kind, v, rb(rng, nb * bb + rng.randrange(0, bb + 2)), cuts, bb, rng.getrandbits(16))
         yield from hist_lines(kind, v, bb, rng, quick)
+        yield from life_lines(v, rng, quick)
         # malformed: a non-final piece that is not block aligned
         if kind == 'blake': yield 'blakeseq %s 0 x0102 x03' % v, 'malformed'
         else: yield 'blake2seq %s x0102 x03' % v, 'malformed'
+    yield from sibling_lines(rng, quick)
 
 
 def shrink(line):
     t = line.split()
+    if t[0] == 'blakeseqs':
+        clss, steps = parse_multi(line)
+        for i in range(len(steps)):
+            if steps[i][1] != ['new']:
+                yield mline(clss, [(k, ' '.join(st)) for k, st in steps[:i] + steps[i + 1:]])
+        return
     if t[0] in ('blakeseq.h', 'blake2seq.h'):
         first = 3 if t[0] == 'blakeseq.h' else 2
         for i in range(first, len(t) - 1): yield ' '.join(t[:i] + t[i + 1:])
